@@ -104,7 +104,7 @@ Proof.
   assert (Hus : 0 <= us < 1000000) by (unfold us; lia).
   assert (Erem : rem = ((hh * 60 + mi) * 60 + ss) * 1000000 + us) by (unfold hh, mi, ss, us; lia).
   unfold pad4, pad2. cbn [app]. unfold parse_iso.
-  assert (Sep : negb ((sep =? "T")%char || (sep =? " ")%char) = false) by (destruct Hsep; subst; reflexivity).
+  assert (Sep : negb ((sep =? "T")%char || (sep =? " ")%char) = false) by (destruct Hsep as [->| ->]; reflexivity).
   rewrite Sep.
   rewrite (num4 y) by lia. rewrite (num2 m), (num2 dd), (num2 hh), (num2 mi), (num2 ss) by lia.
   assert (Valid : (1 <=? y) && (1 <=? m) && (m <=? 12) && (1 <=? dd) && (dd <=? days_in_month y m)
@@ -116,4 +116,78 @@ Proof.
   - cbn [app]. cbv beta iota. rewrite (span_pad6 us Hus). cbv beta iota. cbn [length Z.of_nat Pos.of_succ_nat Pos.succ].
     change (6 <=? 20) with true. cbv iota. cbn [bind]. rewrite parse_tz_utc. cbn [bind]. rewrite Valid.
     rewrite (frac6 us Hus). f_equal. f_equal. unfold day_us. lia.
+Qed.
+
+(* ------------------------------------------------------------------------- *)
+(* shape of the JSON timestamp: YYYY-MM-DDTHH:MM:SS[.fff000]+00:00 *)
+
+Definition is_digit (c : ascii) : bool := match digit_val c with Some _ => true | None => false end.
+Definition all_digits (l : list ascii) : bool := forallb is_digit l.
+
+Definition iso_utc_shape (s : list ascii) : bool :=
+  match s with
+  | y1 :: y2 :: y3 :: y4 :: "-" :: m1 :: m2 :: "-" :: d1 :: d2 :: "T" ::
+    h1 :: h2 :: ":" :: i1 :: i2 :: ":" :: s1 :: s2 :: rest =>
+      all_digits [y1; y2; y3; y4; m1; m2; d1; d2; h1; h2; i1; i2; s1; s2] &&
+      match rest with
+      | ["+"; "0"; "0"; ":"; "0"; "0"] => true
+      | ["."; f1; f2; f3; "0"; "0"; "0"; "+"; "0"; "0"; ":"; "0"; "0"] => all_digits [f1; f2; f3]
+      | _ => false
+      end
+  | _ => false
+  end.
+
+Lemma is_digit_digit : forall n, 0 <= n <= 9 -> is_digit (digit n) = true.
+Proof. intros n H. unfold is_digit. now rewrite (digit_val_digit n H). Qed.
+
+Theorem isoformat_shape : forall t, 0 <= t <= y2100_us -> t mod 1000 = 0 ->
+  iso_utc_shape (isoformat_utc t) = true.
+Proof.
+  intros t Ht Hms. unfold isoformat_utc, isoformat_sep, y2100_us in *.
+  set (days := t / day_us). set (rem := t mod day_us).
+  assert (Hd : 0 <= days <= 47482).
+  { unfold days, day_us. split; [apply Z.div_pos; lia|]. apply Z.div_le_upper_bound; lia. }
+  assert (Hrem : 0 <= rem < 86400000000) by (apply Z.mod_pos_bound; reflexivity).
+  assert (Rms : rem mod 1000 = 0).
+  { unfold rem, day_us. pose proof (Z.div_mod t 86400000000). lia. }
+  pose proof (civil_spec days Hd) as CS. destruct CS as (y & m & dd & C & Hy & Hm & Hdd & Inv). rewrite C.
+  pose proof (days_in_month_le y m) as D31.
+  set (hh := rem / 3600000000). set (mi := rem / 60000000 mod 60). set (ss := rem / 1000000 mod 60).
+  set (us := rem mod 1000000).
+  assert (Hhh : 0 <= hh < 24) by (unfold hh; lia).
+  assert (Hmi : 0 <= mi < 60) by (unfold mi; lia).
+  assert (Hss : 0 <= ss < 60) by (unfold ss; lia).
+  assert (Hus : 0 <= us < 1000000) by (unfold us; lia).
+  assert (Ums : us mod 1000 = 0) by (unfold us; lia).
+  unfold pad4, pad2. cbn [app]. unfold iso_utc_shape, all_digits. cbn [forallb].
+  rewrite !is_digit_digit by lia. cbn [andb].
+  destruct (Z.eqb_spec us 0) as [U0|U0].
+  - reflexivity.
+  - unfold pad6. cbn [app].
+    replace (us / 100 mod 10) with 0 by lia. replace (us / 10 mod 10) with 0 by lia.
+    replace (us mod 10) with 0 by lia.
+    change (digit 0) with "0"%char. unfold utc_suffix. cbv beta iota.
+    rewrite !is_digit_digit by lia. reflexivity.
+Qed.
+
+(* ------------------------------------------------------------------------- *)
+(* every offset parse_date can produce is a whole number of minutes *)
+
+Lemma parse_tz_minutes : forall l off, parse_tz l = Ok off -> off mod 60000000 = 0.
+Proof.
+  intros l off H. unfold parse_tz in H.
+  repeat match type of H with
+         | context [match ?x with _ => _ end] => destruct x; try discriminate H
+         end;
+  injection H as <-; try reflexivity; apply Z.mod_mul; lia.
+Qed.
+
+Lemma parse_iso_minutes : forall s u off, parse_iso s = Ok (u, off) -> off mod 60000000 = 0.
+Proof.
+  intros s u off H. unfold parse_iso, bind in H.
+  repeat match type of H with
+         | context [match parse_tz ?r with _ => _ end] => destruct (parse_tz r) eqn:TZ; try discriminate H
+         | context [match ?x with _ => _ end] => destruct x; try discriminate H
+         end;
+  injection H as _ <-; eapply parse_tz_minutes; eassumption.
 Qed.
